@@ -46,6 +46,8 @@ class FakeChannel:
 
     def invoke_subsystem(self, name):
         self.log.append('subsystem:%d:%d' % (self.idx, 1 if self.accept else 0))
+        if FakeTransport.current is not None:
+            FakeTransport.current.setdefault('sub_names', []).append(name)
         if not self.accept:
             raise paramiko.SSHException('subsystem request rejected')
 
@@ -138,6 +140,9 @@ def run_connect(case, shared_home=None):
                 hk.add('[%s]:%s' % (host, port), 'ssh-rsa', K['server'])
             elif case['known'] == 'd':
                 hk.add(host, 'ssh-rsa', K['other'])
+            elif case['known'] == 'i':
+                hk.add('127.0.0.1', 'ssh-rsa', K['server'])
+                hk.add('[127.0.0.1]:%s' % port, 'ssh-rsa', K['server'])
             hk.save(os.path.join(home, '.ssh', 'known_hosts'))
         keyfile = os.path.join(home, 'id_test')
         if not os.path.exists(keyfile):
@@ -166,9 +171,15 @@ def run_connect(case, shared_home=None):
             log.append('hello')
         sshmod.paramiko.Transport = FakeTransport
         sshmod.SSHSession._post_connect = post
-        a, b = socket.socketpair()
+        # a real TCP connection (the peer has an address: 127.0.0.1), as connect(host=…) would have made after resolving the name
+        lst = socket.socket(socket.AF_INET, socket.SOCK_STREAM)
+        lst.bind(('127.0.0.1', 0))
+        lst.listen(1)
+        a = socket.create_connection(lst.getsockname())
+        b, _ = lst.accept()
+        lst.close()
         kw = dict(host=host, port=port, sock=a, hostkey_verify=case['verify'], allow_agent=False, look_for_keys=False, username='u',
-                  device_params={'name': case['profile']})
+                  device_params=dict(case.get('device_params') or {}, name=case['profile']))
         if case['profile'] in ('default', 'junos', 'nexus') and case['cb'] is not None:
             kw['unknown_host_cb'] = cb          # cb None: the caller passes no callback at all (the library's default refuses)
         if case['pinned'] == 'm':
@@ -204,7 +215,7 @@ def run_connect(case, shared_home=None):
             a.close()
             b.close()
         # for profiles that install their own callback the harness cannot log the call: infer it
-        return {'trace': log, 'result': res}
+        return {'trace': log, 'result': res, 'sub_names': list(env.get('sub_names', []))}
     finally:
         if old_home is None:
             os.environ.pop('HOME', None)
